@@ -6,7 +6,7 @@ import Driver.Proto
 One case line = one chain: `C01.<label> <step> <step> …`; a step is `name|arg|arg…` (fields starting with `#` are
 information for the Rust side only and are dropped).  Array arguments are store positions `@3`; the list-taking
 operations take `@1,2,3` (positions) or `@L5` (all members of the list stored at 5).  A step named `s.<op>` is a string-array operation; a step named `u.<op>` is an
-unmodelled call: its last field `=A2,3` / `=L2,3/2,3` / `=N` is what the real call returned when the chain was generated.
+unmodelled call: its last field `=A2,3` / `=L2,3/2,3` / `=N` / `=G16777217` (giant: not stored) is what the real call returned when the chain was generated.
 Answer: `ok r0;r1;…` with one record per step: `A<shape>` | `L<shape>/<shape>…` | `E` | `P` | `S`(kipped) | `X`(extern).
 A step whose last field is `v` (emitted for `ediff1d` / `diff` / `insert_axis` / `convolve` on chains whose real values are the
 model's tag values) is answered with the element VALUES as well: `A<shape>:<v0>,<v1>,…`.
@@ -35,10 +35,14 @@ def kind? (s : String) : Option Sort.KindArg :=
   else none
 def lane? (s : String) : Option LaneFn :=
   if s == "id" then some .ident else if s == "rev" then some .rev
+  -- `alt`: a lane closure with memory that reverses every other lane (each lane keeps its length, like `rev`)
+  else if s == "alt" then some .rev
   else if s.startsWith "ct" then ((s.drop 2).toString.toNat?).map LaneFn.take else none
 def shape? (s : String) : Option (List Nat) := parseNatList? s
 def ext? (s : String) : Option Ext :=
   if s == "=N" then some .none
+  -- `=G<shape>`: an array of more than 2^22 elements was returned; the store keeps no entry for it (no list of that length is built)
+  else if s.startsWith "=G" then some .none
   else if s.startsWith "=A" then (shape? (s.drop 2).toString).map Ext.arr
   else if s == "=L" then some (.list [])
   else if s.startsWith "=L" then (((s.drop 2).toString.splitOn "/").mapM shape?).map Ext.list
@@ -177,6 +181,16 @@ def parseStep (name : String) (args : List String) : Option Op :=
   | "filter_e", [a, m, t] => do some (.filterE (← ref? a) (← parseNat? m) (← parseNat? t))
   | "filter_map_e", [a, m, t] => do some (.filterMapE (← ref? a) (← parseNat? m) (← parseNat? t))
   | "filter", [a] => do some (.filterNonzero (← ref? a))
+  -- robustness streams part 5: the spellings with a last field `cnt` hand the real operation a COUNTING closure (`FnMut`; its answer is
+  -- `k % m < t` at its k-th call, whatever index or element it is offered).  The models call the closure once per element in flat
+  -- order (`Iter.filterIdxM` / `filterMapIdxM` / `traverseIdx`), where call number = index: the counting closure IS the pure
+  -- closure `fun i _ => i % m < t` of the plain spelling, for `filter` / `filter_map` (no index passed) as well.
+  | "filter_e", [a, m, t, "cnt"] => do some (.filterE (← ref? a) (← parseNat? m) (← parseNat? t))
+  | "filter", [a, m, t, "cnt"] => do some (.filterE (← ref? a) (← parseNat? m) (← parseNat? t))
+  | "filter_map_e", [a, m, t, "cnt"] => do some (.filterMapE (← ref? a) (← parseNat? m) (← parseNat? t))
+  | "filter_map", [a, m, t, "cnt"] => do some (.filterMapE (← ref? a) (← parseNat? m) (← parseNat? t))
+  | "map", [a, "cnt"] => do some (.map (← ref? a))
+  | "map_e", [a, "cnt"] => do some (.mapE (← ref? a))
   | "count_nonzero", [a, ax, kd] => do some (.countNonzero (← ref? a) (← optInt? ax) (← optBool? kd))
   | "argmax", [a, ax, kd] => do some (.argExtreme (← ref? a) true (← optInt? ax) (← optBool? kd))
   | "argmin", [a, ax, kd] => do some (.argExtreme (← ref? a) false (← optInt? ax) (← optBool? kd))
